@@ -11,7 +11,7 @@
 0. RingArith.tla: the index arithmetic (extend with and without growth, drop, clear) for ARBITRARY capacities; its
    inductive invariant is discharged symbolically by Apalache, TLC bridges its modulo-free wrap to the `%` form.
 """
-import json, os, random
+import json, os, random, re
 from ..common import *
 from .. import walk
 
@@ -78,6 +78,34 @@ def ring_arith(ctx):
     if not base or not step:
         ctx.violation("the ring index arithmetic does not preserve its invariant for arbitrary capacities (RingArith.tla: %s fails)"
                       % ("Init => IndInv" if not base else "IndInv /\\ Next => IndInv'"), {"module": "spec/RingArith.tla"}, tag="arith")
+    # TLAPS: the same theorem, deductively (spec/RingArithProof.tla: Spec => [](IndInv /\ Safe), SMT + PTL back ends)
+    psrc = open(os.path.join(ROOT, "spec", "RingArithProof.tla")).read()
+    open(os.path.join(d, "RingArithProof.tla"), "w").write(psrc)
+    open(os.path.join(d, "RingArithProofDev.tla"), "w").write(
+        psrc.replace("MODULE RingArithProof ", "MODULE RingArithProofDev ").replace("EXTENDS RingArith,", "EXTENDS RingArithDev,"))
+
+    def tlaps(module, stretch):
+        _sh.rmtree(os.path.join(d, ".tlacache"), ignore_errors=True)
+        r = run(["timeout", "600", "tlapm", "--threads", "4", "--stretch", stretch, module + ".tla"], cwd=d, timeout=700, check=False)
+        out = (r.stdout or "") + (r.stderr or "")
+        m = re.search(r"All (\d+) obligations proved", out)
+        if m:
+            return int(m.group(1)), 0
+        m = re.search(r"(\d+)/(\d+) obligations failed", out)
+        if m:
+            return int(m.group(2)), int(m.group(1))
+        raise ToolError("tlapm failed on %s:\n%s" % (module, out[-1500:]))
+
+    n_obl, n_failed = tlaps("RingArithProof", "1")
+    dev_obl, dev_failed = tlaps("RingArithProofDev", "0.3")
+    if dev_failed == 0:
+        raise ToolError("self-test failed: tlapm also proves the theorem when free() forgets the unused cell")
+    if n_failed:
+        ctx.violation("the ring index arithmetic does not preserve its invariant for arbitrary capacities (RingArithProof.tla: %d of %d proof obligations fail)"
+                      % (n_failed, n_obl), {"module": "spec/RingArithProof.tla"}, tag="arith")
+    ctx.cov["index_arithmetic_tlaps"] = {
+        "theorem": "RingArith!Spec => [](IndInv /\\ Safe), with the type invariant carried explicitly",
+        "obligations_proved": n_obl, "selftest": "%d of %d obligations fail when free() forgets the unused cell" % (dev_failed, dev_obl)}
     # TLC: Wrap = % up to MaxCap, and the bounded graph satisfies the same invariant
     mod = ctx.path("MC_RingArith.tla")
     with open(mod, "w") as f:
